@@ -1,5 +1,5 @@
 """regenerate /verif/MANIFEST.json from the table below (claimed properties) + properties.jsonl (not_applicable for the rest)"""
-import json, os
+import json, os, re
 ROOT = os.path.dirname(os.path.dirname(os.path.abspath(__file__)))
 props = [json.loads(l) for l in open(os.path.join(ROOT, "properties.jsonl"))]
 
@@ -46,6 +46,6 @@ m = {"version": 1, "setup_cmd": "true",
      "hooks": {"guard": "GUNICORN_VERIF", "enable": "no hooks in /repo: contracts are sidecars under /verif/contracts; the checker re-reads /repo sources on every run", "baseline_off_cmd": "cd /repo && /venv/bin/python -m pytest -ra -q -p no:cacheprovider --timeout=900 --continue-on-collection-errors", "source_commits": [], "add_only": True},
      "engines": [{"name": "pyvc", "path": "/verif/pyvc", "serves_properties": sorted(CLAIMS), "kind_free_text": "ast->SMT verification-condition generator over the real gunicorn sources (re-read on every run) with sidecar contracts, Houdini loop invariants, z3 + cvc5; bounded differential stand-ins under /verif/harness"}],
      "checks": checks, "not_applicable": na,
-     "notes": "fix: commits in /repo (10, listed as fixed: entries in /verif/known_findings.json): e1d1725 f55340c 8186d0d ed7a637 10cf475 ee52a5c 1acb2eb 813321b 83d084e 5565333. Known findings (not repaired): /verif/known_findings.json."}
+     "notes": "fix: commits in /repo (recorded as fixed: entries in /verif/known_findings.json): " + " ".join(sorted(set(re.findall(r"property=\S+ ([0-9a-f]{7})", " ".join(json.load(open(os.path.join(ROOT, "known_findings.json")))["fixed"]))))) + ". Known findings (genuine, not repaired): /verif/known_findings.json. DESIGN.md section 8 describes the machinery as built."}
 json.dump(m, open(os.path.join(ROOT, "MANIFEST.json"), "w"), indent=1)
 print("claimed:", sorted(CLAIMS), "n/a:", len(na))
